@@ -38,7 +38,7 @@ RESTR = {
 }
 CATS = ('absent', 'refeds', 'swamid', 'edugain')
 FAIL = ('absent', True, False)
-ENTRY = ('default', 'per-sp', 'per-sp-partial')
+ENTRY = ('default', 'per-sp', 'per-sp-partial', 'none')      # 'none': no policy section at all (the default policy is in force)
 RS = 'http://refeds.org/category/research-and-scholarship'
 COCO = 'http://www.geant.net/uri/dataprotection-code-of-conduct/v1'
 SWAMID_RE = 'http://www.swamid.se/category/research-and-education'
@@ -79,6 +79,8 @@ def sp_metadata(decl, cats):
 
 
 def policy_dict(entry, restr, cat, fail):
+    if entry == 'none':
+        return None
     spec = {}
     if RESTR[restr] != 'ABSENT':
         spec['attribute_restrictions'] = RESTR[restr]
@@ -174,13 +176,26 @@ def permitted(identity, restr, cat, decl, cats):
     return allowed
 
 
+def _norm(c):
+    # without a policy section there is nothing to carry restrictions, categories or the fail switch
+    if c['entry'] == 'none':
+        c = dict(c, restr='absent', cat='absent', fail='absent')
+    return c
+
+
 def cells(thorough):
+    return _cells(thorough)
+
+
+def _cells(thorough):
     out = []
     base = dict(entry='default', restr='names', cat='absent', fail='absent', decl='required+optional', cats='none', ident='full')
     dims = dict(entry=ENTRY, restr=tuple(RESTR), cat=CATS, fail=FAIL, decl=tuple(SP_DECL), cats=tuple(SP_CATS), ident=tuple(IDENTITIES))
     if thorough:
         for vals in itertools.product(*[dims[k] for k in sorted(dims)]):
             c = dict(zip(sorted(dims), vals))
+            if c['entry'] == 'none' and (c['restr'], c['cat'], c['fail']) != ('absent', 'absent', 'absent'):
+                continue
             out.append(c)
     else:
         seen = set()
@@ -191,13 +206,14 @@ def cells(thorough):
             for va, vb in itertools.product(dims[a], dims[b]):
                 c = dict(base)
                 c[a], c[b] = va, vb
+                c = _norm(c)
                 t = tuple(sorted(c.items()))
                 if t not in seen:
                     seen.add(t)
                     out.append(c)
         # unsatisfiable requirements crossed with every policy shape and identity
         for decl, restr, ident, fail, entry in itertools.product(('required-missing', 'value-unmet'), RESTR, IDENTITIES, FAIL, ENTRY):
-            c = dict(base, decl=decl, restr=restr, ident=ident, fail=fail, entry=entry)
+            c = _norm(dict(base, decl=decl, restr=restr, ident=ident, fail=fail, entry=entry))
             t = tuple(sorted(c.items()))
             if t not in seen:
                 seen.add(t)
